@@ -2,6 +2,7 @@ HOOK_COMMITS = [
   "78b77a3 verif hook H3: record the conditional-inclusion state before every directive",
   "95305c4 verif hook H1: keep the syntax tree handed to the formatter by export_to_hlsl / export_to_msl",
   "4613e7a verif hook H4: record the slot allocator state after every root definition in assign_api_bindings",
+  "824d458 verif hook H2: schedulable hash containers",
 ]
 ENGINES = [
     {"name": "e1-enumerate", "path": "harness/src/engine.rs", "serves_properties": [], "kind_free_text": "stateless bounded-exhaustive enumeration of inputs over the real code against a reference model / relational oracle"},
@@ -25,3 +26,8 @@ CLAIMED.append(check("C09", "exploration",
   "Bounded-exhaustive enumeration of syntax trees through the real formatter and the real preprocessor+parser: every expression tree of depth <= 2 over the full constructor alphabet (10 unary, 30 binary, ternary, subscript, member, calls with 0-2 arguments and a template argument, casts, sizeof) with ordered leaves, the same trees with each leaf kind (qualified names, int/uint/float/bool literals) substituted uniformly and at the first/last position, every spine tree of depth 3 over the full alphabet (thorough: depth 4 and 5 over class alphabets), every literal kind over boundary values incl. negative zero/negative/NaN nodes, double round trip (parse, print, parse) of the repository's .rssl inputs and of 280 statement/declarator/declaration forms, and the trees the HLSL exporter really builds (hook H1) for those inputs. Each failing tree is shrunk to the smallest failing sub-shape, which is the violation class.",
   "Parser ambiguity nodes are resolved in both trees with the type checker's own rule against a fixed type environment. MSL printing is not re-read (no Metal parser); the Metal-only BracedInit node is outside. Depth 6 of the property is not reached.",
   "bounded exhaustive enumeration of syntax trees with a print/parse round-trip oracle (small-scope model checking of formatter+parser)", "DESIGN.md section 5 C09", "e1-enumerate"))
+
+CLAIMED.append(check("C07", "model_checking",
+  "Controlled-scheduler exploration of the only nondeterminism in rssl, hash-container iteration order: hook H2 routes every iterating operation of every HashMap/HashSet in the compiler through a chooser; for each of 29 inputs (chosen so each container holds >= 2 elements: same-named symbols in several scopes, statics threaded through call chains on Metal, buffer addresses in several groups, helper intrinsics of many object kinds, interpolators, two pipelines, rejected programs, plus the 16 tests/basic inputs) x 4 target configurations, every execution with <= 1 (quick) / <= 2 (thorough) deviating choice points is run to completion, each deviation ranging over all alternative orders (all n!-1 for n <= 4; transpositions, reversal, rotation above), and the complete result (sources, stages, metadata, pipeline state or diagnostic) must equal the default-order run. Prefix replays are checked for divergence, the reference run is repeated, and a failing schedule is replayed twice.",
+  "Assumes hash iteration is the only nondeterminism source (no clock/env/address/thread use in rssl) and that lookups are order-free. Orders for containers with > 4 elements are a restricted family. Cross-process repetition is implied by the in-process result only under that assumption.",
+  "stateless model checking: choice-point DFS with a deviation bound over hash-iteration orders of the real compiler", "DESIGN.md section 5 C07", "e3-choice"))
